@@ -325,7 +325,7 @@ def run_family(sess, M, dot, dfs, fam, focus=None):
             sess.violated(name, role, 'reported %r, status %s, faults %r' % (trace, m.eval(status, model_completion=True), ctx.ghost.get('faulted')),
                           {'trace': trace}, cli_replay(fs, m, dot, dfs), fam)
 
-    n, complete = ex.explore(runp, on_path, time_budget=(300 if sess.tier == 'quick' else 2400))
+    n, complete = ex.explore(runp, on_path, time_budget=(600 if sess.tier == 'quick' else 2400))
     if not complete:
         sess.inconclusive('%s M=%d' % (fam, M), 'time budget exceeded after %d paths' % n, fam)
     elif not viol and not st.get('bad'):
